@@ -400,15 +400,28 @@ class Parser:
                 bond_symbol = "-"  # single bonds implicit
 
             # Skip any parsed atoms, bond order chars and cis/trans definitions
-            if i in self.parsed_idxs or char in bond_order_symbols + [
-                "/",
-                "\\",
-            ]:
+            if i in self.parsed_idxs:
+                continue
+
+            elif char in bond_order_symbols + ["/", "\\"]:
+                # A bond must join a parsed atom to an atom or ring closure
+                if self.n_atoms == 0 or next_char(
+                    self._string, i
+                ) in bond_order_symbols + ["/", "\\", "(", ")", ""]:
+                    raise InvalidSmilesString(f"Dangling bond {char}")
+
                 continue
 
             # Integer for a dangling bond e.g. C1, C=1, N3 etc.
             elif char.isdigit() or char == "%":
+                if self.n_atoms == 0:
+                    raise InvalidSmilesString("Ring bond before any atom")
+
                 ring_idx = self._parse_ring_idx(idx=i)
+
+                if char == "%":
+                    # Both digits of the two digit index have been parsed
+                    self.parsed_idxs.update([i + 1, i + 2])
 
                 # This bond is in the dictionary and can be closed and removed
                 if ring_idx in unclosed_bonds.keys():
@@ -430,6 +443,9 @@ class Parser:
                 self._parse_next_sq_bracket(idx=i)
 
             elif char == "(":  # New branch
+                if self.n_atoms == 0 or self._string[i - 1] == "(":
+                    raise InvalidSmilesString("Branch without a parent atom")
+
                 if i != 0 and self._string[i - 1] == ")":
                     # Directly opened a new branch so keep the previous index
                     pass
@@ -440,6 +456,9 @@ class Parser:
             elif char == ")":  # Closed branch
                 if len(branch_idxs) == 0:
                     raise InvalidSmilesString('Closed unopened bracket "("')
+
+                if self._string[i - 1] == "(":
+                    raise InvalidSmilesString("Empty branch")
 
                 # If the next character is another branch from the same atom
                 # then the branch index should not be deleted
@@ -475,6 +494,9 @@ class Parser:
 
         if len(unclosed_bonds) > 0:
             raise InvalidSmilesString("Found unclosed rings")
+
+        if len(branch_idxs) > 0:
+            raise InvalidSmilesString("Found unclosed branches")
 
         self._set_implicit_hs()
         return None
